@@ -358,8 +358,8 @@ Proof.
 Qed.
 
 (* the source has the fix: build = build_gen None *)
-Lemma init_prev_fixed : GenC11.first_value_always_written = true -> init_prev = None.
-Proof. unfold init_prev. intros ->. reflexivity. Qed.
+Lemma init_prev_fixed : init_prev = None.
+Proof. reflexivity. Qed.
 
 (* ---------- the legacy behaviour (prevStr starts as "") collides ---------- *)
 Definition legacy_t1 : trace := {| t_spans := [[(u "f", VStr [])]; [(u "f", VStr (u "a"))]]; t_root := None |}.
@@ -408,7 +408,7 @@ Lemma gen_c11_ok :
   GenC11.root_prefix = "root."%string /\
   GenC11.cap_breaks_outer = true /\ GenC11.cap_counts_before_store = true /\
   GenC11.cap_is_max_key_length = true /\
-  GenC11.add_switch = [["string"]; ["int"]; ["int64"]; ["float64"]; ["bool"]; ["nil"]; ["default"]]%string /\
+  GenC11.first_value_always_written = true /\
   GenC11.root_uses_same_rendering = true /\ GenC11.float_whole_as_int = true /\
   GenC11.add_uses_append_value = true /\ GenC11.len_is_span_count = true /\
   GenC11.fields_sorted = true /\ GenC11.values_sorted = true /\
@@ -423,7 +423,7 @@ Theorem build_separates_fixed fields uselen uselen' t t' :
   all_present nf t -> all_present nf t' -> all_dfree nf t -> all_dfree nf t' ->
   fst (build fields uselen t) = fst (build fields uselen' t') ->
   same_sets nf t t'.
-Proof. unfold build. rewrite (init_prev_fixed eq_refl). apply build_separates. Qed.
+Proof. unfold build. rewrite init_prev_fixed. apply build_separates. Qed.
 
 (* contrapositive, as the property states it: different value sets => different keys *)
 Corollary build_distinct_sets_distinct_keys fields uselen t t' f x :
@@ -444,5 +444,5 @@ Theorem build_separates_root_fixed fields uselen uselen' t t' rs rs' :
   t_root t = Some rs -> t_root t' = Some rs' -> root_ok rf rs -> root_ok rf rs' ->
   fst (build fields uselen t) = fst (build fields uselen' t') ->
   forall f, In f rf -> option_map render_root (sp_get f rs) = option_map render_root (sp_get f rs').
-Proof. unfold build. rewrite (init_prev_fixed eq_refl). apply build_separates_root. Qed.
+Proof. unfold build. rewrite init_prev_fixed. apply build_separates_root. Qed.
 
